@@ -34,6 +34,8 @@ type c07Case struct {
 	SynthN    int  `json:"sn,omitempty"`
 	SynthDrop int  `json:"sd,omitempty"`
 	SynthTail bool `json:"st,omitempty"`
+	// PadBytes blanks in front of the prefix block: moves every byte of X to another offset without adding a word or a line.
+	PadBytes int `json:"pad,omitempty"`
 }
 
 var c07Markers = []string{"1.", "2)", "2.0.", "10.2)", "iv.", "a.", "3.", "2.1.", "12)", "b."}
@@ -167,6 +169,9 @@ func c07Check(ci interface{}) lib.Outcome {
 	}
 	p := []byte(oovBlock(cl, 300000, c.PWords, c.PLines))
 	s := []byte(oovBlock(cl, 400000, c.SWords, c.SLines))
+	if c.PadBytes > 0 && c.PadBytes <= 1<<16 {
+		p = append(bytes.Repeat([]byte{' '}, c.PadBytes), p...)
+	}
 	if c.PStyle == 1 {
 		// prefer markers that also occur inside X (not at a line start there): "Section 2) in", "(see 10.2)" ...
 		mk := c07MarkersIn(x)
@@ -261,6 +266,39 @@ func c07Check(ci interface{}) lib.Outcome {
 		o.Sample = map[string]interface{}{"threshold": c.Thr, "x": c.X.describe(), "prefix_words": c.PWords, "prefix_lines": dLine, "suffix_words": c.SWords, "matches_of_x": fmtRecs(canon(rx))}
 	}
 	return o
+}
+
+// c07EnumOffsets: every corpus document (up to 30 KB) with letters outside ASCII behind a prefix whose byte length
+// is swept over one read-buffer length (stride 4 rotated by VERIF_SEED in quick, stride 1 in thorough).
+func c07EnumOffsets(yield func(interface{}) bool) {
+	shard, nshards := lib.EnvInt("VERIF_SHARD", 0), lib.EnvInt("VERIF_NSHARDS", 1)
+	stride := 4
+	if lib.Tier() == "thorough" {
+		stride = 1
+	}
+	off := lib.EnvInt("VERIF_SEED", 1) % stride
+	idx := 0
+	for _, d := range c11NonASCIIDocs() {
+		if len(assets()[d].Content) > 30000 {
+			continue
+		}
+		for pad := off; pad < 1024; pad += stride {
+			idx++
+			if idx%nshards != shard {
+				continue
+			}
+			if !yield(&c07Case{Thr: 0.8, Corpus: corpusSel{Docs: []int{d}}, X: recipe{Segs: []seg{{Kind: "doc", Doc: d}}}, PWords: 3 + pad%5, PLines: 1, SWords: 2, SLines: 1, PadBytes: pad}) {
+				return
+			}
+		}
+	}
+}
+
+func TestVerif_C07_Offsets(t *testing.T) {
+	lib.Run(t, lib.Spec{ID: "C07", Part: "non-ascii-offset-sweep",
+		Rule: "every corpus document (up to 30 KB) that contains letters outside ASCII, behind 0..1023 blanks (quick: every 4th width, rotated by VERIF_SEED; thorough: every width) and a few unrelated words; corpus = that document; same oracle as the embedding part",
+		New:  func() interface{} { return &c07Case{} }, Enum: c07EnumOffsets, Exhaustive: true,
+		Check: func(c interface{}) lib.Outcome { o := c07Check(c); o.FP = ""; return o }})
 }
 
 func TestVerif_C07(t *testing.T) {
